@@ -76,7 +76,9 @@ impl Octree {
     ) -> Option<Self> {
         let shape = b.shape();
         let vars = b.vars();
-        if let Some(threads) = settings.threads {
+        if let Some(threads) = settings.threads
+            && settings.depth > 0
+        {
             Self::build_inner_mt(shape, settings, vars, threads)
         } else {
             let mut eval = RenderHandle::new(shape.clone());
